@@ -328,3 +328,66 @@ def not_guard(cx):
     cx.axiom(hasguard(me.t) == z3.Or(marked(me.t), hasguard(c.t)),
              guardof(me.t) == z3.If(marked(me.t), me.t, guardof(c.t)))
     cx.ensures(guard_post(me))
+
+
+_OCC_NAMES = []
+
+
+# ---------------------------------------------------------------- Atom.get_normalized (C02 / C09 / C18)
+@contract('program/condition/atom_cond.py', 'Atom.get_normalized', ['C02', 'C09', 'C18', 'C05'])
+def atom_get_normalized(cx):
+    """For a reduced atom `var cop value` over a finitely typed variable: the result holds exactly when `sigma(var) cop value`
+    (for every value of the variable inside its type), carries the guard mark of the atom, and reports no failed atoms;
+    for a non-finite variable the atom itself is returned as failed; a non-reduced atom is refused."""
+    vals = cx.set('values', DN); x = cx.real('x'); value = cx.num('value'); cop = cx.str('cop')
+    reduced, isfin, mark = cx.bool('is_reduced'), cx.bool('type_is_Finite'), cx.bool('is_loop_guard')
+    w = cx.int('w')
+    self = cx.obj('Atom', poly1=x, poly2=value, cop=cop, is_loop_guard=mark, **{'$holds': VB(cop_sem(cop.t, x.t, value.t))})
+    vt = cx.obj('Finite', values=vals)
+    cx.param(self=self, program=cx.ref('program'))
+    cx.call('is_reduced', lambda ex, st, r, a, kw: reduced)
+    cx.call('get_type', lambda ex, st, r, a, kw: vt)
+    cx.isinstance(lambda ex, st, o, cls: isfin.t)
+    cx.requires(cop_known(cop.t))
+    cx.requires(z3.Implies(isfin.t, z3.And(0 <= w.t, w.t < z3.Length(vals.t), vals.t[w.t] == x.t)))     # typing precondition (C05)
+    valid = cx.set('valid_values', DN); y = z3.Real('yv')
+    cx.call('get_valid_values', lambda ex, st, r, a, kw: valid,
+            trusted='get_valid_values contract (verified in utils/conditions.py): exactly the type values satisfying the comparison')
+    cx.axiom(z3.ForAll([y], member(valid.t, y) == z3.And(member(vals.t, y), cop_sem(cop.t, y, value.t))))
+
+    def mk_atom(ex, st, r, a, kw):
+        return new_obj(st, 'Atom', poly1=a[0], cop=a[1], poly2=a[2], is_loop_guard=VB(False),
+                       **{'$holds': VB(z3.And(a[1].t == z3.StringVal('=='), toreal(a[0]) == toreal(a[2])))})
+    cx.call('Atom', mk_atom)
+    cx.call('Or', lambda ex, st, r, a, kw: new_obj(st, 'Or', cond1=a[0], cond2=a[1], is_loop_guard=VB(False),
+                                                   **{'$holds': VB(z3.Or(st.field(a[0], '$holds').t, st.field(a[1], '$holds').t))}))
+    cx.call('FalseCond', lambda ex, st, r, a, kw: new_obj(st, 'FalseCond', is_loop_guard=VB(False), **{'$holds': VB(False)}))
+    cx.set_hook('obj_havoc_fields', ['is_loop_guard', '$holds'])
+    # loop over the remaining valid values: result holds iff x is the popped value or one of the values seen so far
+    rest_c = [None]; occ_names = _OCC_NAMES
+
+    def occ_of(it):
+        # occ(i): x occurs among the first i elements of the iterated (remaining) set -- spec recursion
+        if rest_c[0] is None or not rest_c[0][0].eq(it):
+            f = z3.RecFunction(f'occ{len(occ_names)}', I, B); j = z3.Int('jo'); occ_names.append(1)
+            z3.RecAddDefinition(f, [j], z3.If(j <= 0, z3.BoolVal(False), z3.Or(f(j - 1), it[j - 1] == x.t)))
+            rest_c[0] = (it, f)
+        return rest_c[0][1]
+
+    def inv(st):
+        it = st['valid_values']          # the set being iterated (after pop)
+        occ = occ_of(it.t)
+        return dict(prove=st.field(st['result'], '$holds').t == z3.Or(z3.And(member(valid.t, x.t), z3.Not(member(it.t, x.t))), occ(st['$i0'].t)),
+                    # lemma L-occ (induction over the length, assumed): occurrence among all elements is membership
+                    assume=occ(z3.Length(it.t)) == member(it.t, x.t))
+    cx.invariant(0, inv)
+    cx.lemmas.append(('L-occ: occ(len(s)) <=> x in s (induction over the sequence), used where the loop invariant is assumed', None))
+
+    def post(st, r):
+        res, failed = r.t
+        if failed.kind == 'pylist':      # not finite: the atom itself is returned as failed
+            return z3.And(z3.Not(isfin.t), z3.BoolVal(res.t == self.t), z3.BoolVal(len(failed.t) == 1 and failed.t[0].t == self.t))
+        return z3.And(isfin.t, st.field(res, 'is_loop_guard').t == mark.t,
+                      st.field(res, '$holds').t == cop_sem(cop.t, x.t, value.t), z3.BoolVal(bool(failed.get('empty'))))
+    cx.ensures(post)
+    cx.raises(lambda st, e: z3.Not(reduced.t))
